@@ -463,6 +463,11 @@ def dedicated(ctx, emit_funcs, summaries):
                             sw_t.add(e["handlers"])
         ctx.ob(rule, fi, sw_i == sw_t, "%s: handlers that swallow an exception in generated code %s vs in %s.%s %s" % (q, sorted(sw_t), owner, meth, sorted(sw_i)), key="swallowing handlers %s" % meth)
 
+    # ---- constants wrapped as callables by the interpreter (RepeatUntil's non-callable predicate) return the constant, as `if (<repr>)` does in generated code
+    n_sc = no_self_capture(ctx, rule)
+    if n_sc < 2:
+        ctx.error("C04.R3: %d rebinding lambdas found in the package, floor 2 (RepeatUntil._parse/_build)" % n_sc)
+
     # ---- FlagsEnum parse: per-flag test
     q = "FlagsEnum._emitparse"
     if q in emit_funcs:
@@ -631,3 +636,27 @@ def dedicated(ctx, emit_funcs, summaries):
                 if p.returns and (p.retval is None or p.retval == N.NONE):
                     rets_ok = False
         ctx.ob(rule, fi, rets_ok, "FocusedSeq %s: every run of the generated helper returns the focused member's result (no path falls off the end)" % direction, key="FocusedSeq %s returns" % direction)
+        if direction == "build":
+            # which member gets the object: exactly the one whose name is parsebuildfrom (the interpreter's `obj if sc.name == parsebuildfrom else None`)
+            focus_ok, decided = True, 0
+            for em, r, ts, fps in _tmpl(summaries, q):
+                fk = None
+                for k, c in r.conds.items():
+                    if isinstance(c, ast.Compare) and len(c.ops) == 1 and isinstance(c.ops[0], (ast.Eq, ast.NotEq)):
+                        sides = {ast.unparse(c.left), ast.unparse(c.comparators[0])}
+                        if "self.parsebuildfrom" in sides and any(s_.endswith(".name") for s_ in sides):
+                            fk = (k, isinstance(c.ops[0], ast.Eq))
+                if fk is None:
+                    continue
+                focused = r.choices.get(fk[0], True) == fk[1]
+                fn = [f for f in fps if f != "__template__"]
+                for p in fps.get(fn[0], []) if fn else []:
+                    for e in p.events:
+                        if e.kind == "SUB" and e.loops:
+                            decided += 1
+                            focus_ok = focus_ok and e["obj"] == (OBJ if focused else N.NONE)
+                            if focused and p.returns:
+                                focus_ok = focus_ok and p.retval == e["res"]
+            if not decided:
+                ctx.error("C04.R3: FocusedSeq._emitbuild no longer selects the focused member by comparing its name with self.parsebuildfrom; the focus rule cannot be decided")
+            ctx.ob(rule, fi, focus_ok, "FocusedSeq build: generated code hands obj to exactly the member named parsebuildfrom (None to the others) and returns that member's build result", key="FocusedSeq build focus")
